@@ -440,7 +440,10 @@ class MemorySource(DataSource):
 
     def load_from_file(self, file_path, version=None, encoding='utf-8'):
         with io.open(os.path.abspath(file_path), "r", encoding=encoding) as f:
-            stix_data = json.load(f)
+            try:
+                stix_data = json.load(f)
+            except RecursionError:
+                raise ValueError("Cannot load '%s': JSON text is nested too deeply." % file_path)
 
         _add(self, stix_data, self.allow_custom, version)
     load_from_file.__doc__ = MemoryStore.load_from_file.__doc__
